@@ -618,6 +618,7 @@ def build_unit(repo, template_text):
                 raise ExtractError(f"lost anchor: {lines[0]}: symbols `{d['symbols']}` do not match /{o['symbols']}/")
             ex.items[-1]['name'] = o['fn']
             ex.items[-1]['kind'] = 'fn'
+            contract = contract.replace('$param', d['param'])   # the contract names the token parameter neutrally
             if 'plain' in o or any(l == 'plain' for l in lines[1:]):
                 out.append(f"pub fn {o['fn']}({d['param']}: &str) -> {o['ret']}\n{{\n    {d['action']}\n}}")
             else:
